@@ -403,7 +403,7 @@ func intConsts(pi *pkgInfo, prefix string, rows map[string]constRow) {
 
 // ------------------------------------------------------------------------------------------ output
 
-func leanStr(s string) string { return strconv.Quote(s) }
+func leanStr(s string) string { return "n!" + strconv.Quote(s) }
 
 func leanRec(r Rec) string {
 	var b strings.Builder
@@ -561,7 +561,7 @@ func main() {
 	b.WriteString("import DaeVerif.C19.Types\n/-! GENERATED by translators/c19_go/main.go from control/*.go (go/types). Do not edit. -/\n")
 	b.WriteString("namespace DaeVerif.C19.Gen\nopen DaeVerif.C19\n\n")
 	b.WriteString("/-- memory layouts (gc), one entry per class of GOARCHes with identical layouts -/\n")
-	b.WriteString("def goLayouts : List (List String × List Rec) := [\n")
+	b.WriteString("def goLayouts : List (List Name × List Rec) := [\n")
 	for i, c := range classes {
 		fmt.Fprintf(&b, " (%s, %s)", leanStrs(c.Arches), leanRecs(c.Recs))
 		if i != len(classes)-1 {
@@ -570,16 +570,16 @@ func main() {
 	}
 	b.WriteString("]\n\n/-- encoding/binary layout (what cilium/ebpf's sysenc.Marshal writes) -/\n")
 	fmt.Fprintf(&b, "def goPacked : List Rec := %s\n\n", leanRecs(packed))
-	fmt.Fprintf(&b, "def goMapTags : List String := %s\n", leanStrs(mapTags))
-	fmt.Fprintf(&b, "def goProgTags : List String := %s\n", leanStrs(progTags))
-	fmt.Fprintf(&b, "def goVarTags : List String := %s\n", leanStrs(varTags))
+	fmt.Fprintf(&b, "def goMapTags : List Name := %s\n", leanStrs(mapTags))
+	fmt.Fprintf(&b, "def goProgTags : List Name := %s\n", leanStrs(progTags))
+	fmt.Fprintf(&b, "def goVarTags : List Name := %s\n", leanStrs(varTags))
 	b.WriteString("\nend DaeVerif.C19.Gen\n")
 	must(os.WriteFile(filepath.Join(leandir, "GoLayout.lean"), []byte(b.String()), 0o644))
 
 	b.Reset()
 	b.WriteString("import DaeVerif.C19.Types\n/-! GENERATED by translators/c19_go/main.go. Do not edit. -/\n")
 	b.WriteString("namespace DaeVerif.C19.Gen\nopen DaeVerif.C19\n\n")
-	b.WriteString("def goConsts : List (String × Int) := [\n")
+	b.WriteString("def goConsts : List (Name × Int) := [\n")
 	for i, n := range names {
 		fmt.Fprintf(&b, "  (%s, %s)", leanStr(n), rows[n].Val)
 		if i != len(names)-1 {
